@@ -154,3 +154,15 @@ Example c19_nonvacuous :
   dir_wf 2 2 64 d1 = true /\ d1 <> d0 /\
   lru_ok 4 [2; 0; 3; 1] = true /\ remove_first 0 [2; 0; 3; 1] ++ [0] = [2; 3; 1; 0].
 Proof. vm_compute. repeat split; try reflexivity. discriminate. Qed.
+
+(** Link between the two evaluators on the FindVictim and Lookup kernel cases:
+    whenever the real function's result equals the model's, the property
+    predicate [Exec.holds_on] holds of the observed result. *)
+From Akita Require Import C19.Exec C19.Link.
+Theorem c19_model_agreement_implies_property : forall d ns bs pid addr ov ol,
+  (check_case (KVictim d ns bs addr ov) = true -> holds_on (KVictim d ns bs addr ov) = true) /\
+  (check_case (KLookup d ns bs pid addr ol) = true -> holds_on (KLookup d ns bs pid addr ol) = true).
+Proof.
+  intros. split; [apply victim_agreement_implies_property|apply lookup_agreement_implies_property].
+Qed.
+Print Assumptions c19_model_agreement_implies_property.
